@@ -167,11 +167,48 @@ Fixpoint channels (p : pt) : list chan :=
   | AAtom l _ r => dkeys (dupdate (map (fun c => (c, tt)) (channels l)) (map (fun c => (c, tt)) (channels r)))
   end.
 
-(* loop range pieces, loop_pulse_template.py:116-131 / 206-221 *)
+(* x occurs free in e *)
+Fixpoint fvb (x : var) (e : expr) {struct e} : bool :=
+  match e with
+  | EC _ => false
+  | EV y => N.eqb y x
+  | EAdd a b | ESub a b | EMul a b | EDiv a b | EMax a b => fvb x a || fvb x b
+  | ENeg a | ECeil a | EFloor a => fvb x a
+  | ESum i lo hi body => fvb x lo || fvb x hi || (negb (N.eqb x i) && fvb x body)
+  | EIfLe a b u v => fvb x a || fvb x b || fvb x u || fvb x v
+  | ELet bs body =>
+      (fix any (l : list (var * expr)) : bool :=
+         match l with [] => false | (_, e') :: r => fvb x e' || any r end) bs
+      || (negb ((fix bound (l : list (var * expr)) : bool :=
+                   match l with [] => false | (y, _) :: r => N.eqb x y || bound r end) bs) && fvb x body)
+  end.
+
+(* the largest variable name written anywhere in e (0 if none) *)
+Fixpoint maxvar (e : expr) {struct e} : N :=
+  match e with
+  | EC _ => 0%N
+  | EV y => y
+  | EAdd a b | ESub a b | EMul a b | EDiv a b | EMax a b => N.max (maxvar a) (maxvar b)
+  | ENeg a | ECeil a | EFloor a => maxvar a
+  | ESum _ lo hi body => N.max (maxvar lo) (N.max (maxvar hi) (maxvar body))
+  | EIfLe a b u v => N.max (maxvar a) (N.max (maxvar b) (N.max (maxvar u) (maxvar v)))
+  | ELet bs body =>
+      N.max ((fix mx (l : list (var * expr)) : N :=
+                match l with [] => 0%N | (_, e') :: r => N.max (maxvar e') (mx r) end) bs) (maxvar body)
+  end.
+
+(* loop range pieces, loop_pulse_template.py:114-131 / 206-240 *)
 Definition loop_count (start stop step : expr) : expr := ECeil (EDiv (ESub stop start) step).
+(* ForLoopPulseTemplate._sum_index: the bound symbol of the Sum is the loop index itself unless the loop range refers to
+   a parameter of the same name; then it is a sympy.Dummy, i.e. a symbol that occurs nowhere else - here the successor
+   of every name written in the range and in the summand. *)
+Definition sum_index (i : var) (start stop step body : expr) : var :=
+  if fvb i start || fvb i stop || fvb i step
+  then N.succ (N.max (maxvar start) (N.max (maxvar stop) (N.max (maxvar step) (maxvar body))))
+  else i.
 Definition loop_sum (i : var) (start stop step body : expr) : expr :=
-  ESum i e0 (ESub (EMax (loop_count start stop step) e1) e1)
-       (ELet [(i, EAdd start (EMul (EV i) step))] body).
+  ESum (sum_index i start stop step body) e0 (ESub (EMax (loop_count start stop step) e1) e1)
+       (ELet [(i, EAdd start (EMul (EV (sum_index i start stop step body)) step))] body).
 
 (* duration *)
 Fixpoint duration_expr (p : pt) : expr :=
